@@ -33,7 +33,8 @@ class C06(Prop):
                   "leaves exactly the matching entries and a clear call nothing (machine-level, the call run alone); the model's run of every case "
                   "whose keys carry one hash per class passes spec_ok (C06_spec_ok_on_model) and spec_ok = true implies agreement with the single-map replay "
                   "(C06_spec_ok_sound; the converse is not stated). Tied to /repo by "
-                  "replaying histories and schedules on the real code plus two oracle engines (free-running stress; key-side state racing registry operations).")
+                  "replaying histories and schedules on the real code (key pools from distinct allocations and storage-aliased families: slices of one static buffer) "
+                  "plus three oracle engines (free-running stress; key-side state racing registry operations; bulk history over aliased keys).")
     level_note = ("SC interleaving at lock granularity: RwLock and hashbrown are trusted to give mutual exclusion / map semantics (a shard is an "
                   "association list searched by (hash, ==)). retain/clear/visit are modelled as the code is: one shard lock after the other, so "
                   "they are not atomic over the registry (the reference machine sweeps the single map band by band in the same way). The executable "
@@ -82,8 +83,94 @@ class C06(Prop):
             self._tab = dict(k=k, shards=shards, h=h, groups=[g for g in by_shard.values() if len(g) >= 2])
         return self._tab
 
+    # ---- storage-aliased key families (names / label parts are slices of one leaked buffer in the driver)
+    _atab = None
+    ALIAS0 = 200000
+
+    def atable(self):
+        if self._atab is None:
+            binpath = os.path.join(core.TARGET, "release", self.binname)
+            rc, outs, err = core.run_impl(binpath, ["ATABLE"])
+            if rc != 0 or not outs or not outs[0].startswith("ATABLE"):
+                raise core.MachineryBroken("c06 ATABLE query failed: %s %s" % (outs[:1], err[-500:]))
+            _, body, bad = outs[0].split(";")
+            if bad.strip():
+                raise core.MachineryBroken("c06 generator bug: aliased key families have classes with equal contents or variants with other contents: " + bad.strip()[:300])
+            h = {}
+            for t in body.split():
+                c, x = t.split(":")
+                h[int(c)] = int(x)
+            shards = self.table()["shards"]
+            buckets = {}
+            for c, x in h.items():
+                fam = (c - self.ALIAS0) // 10000
+                buckets.setdefault((fam, x & (shards - 1), x >> 57), []).append(c)
+            groups = {0: [], 1: [], 2: []}
+            for (fam, _, _), g in sorted(buckets.items()):
+                if len(g) >= 2:
+                    groups[fam].append(sorted(g))
+            self._atab = dict(h=h, groups=groups)
+        return self._atab
+
     def key(self, c, v):
+        if c >= self.ALIAS0:
+            return [c, v, self.atable()["h"][c]]
         return [c, v, self.table()["h"][(c, v)]]
+
+    _alias_stats = None
+
+    def alias_case(self, rng, k, exact=False):
+        """keys whose names / label keys / label values are slices of ONE static buffer: classes of one family that fall into the
+        same shard with the same hashbrown tag (top 7 hash bits), built mostly as borrowed slices (same start, different length),
+        mixed with clones, twin-buffer slices, owned and Arc copies of the same contents"""
+        at = self.atable()
+        st = self._alias_stats or dict(cases=0, pairs_same_shard_same_tag=0, families=[0, 0, 0], variants=[0] * 6)
+        self._alias_stats = st
+        fam = 0 if exact else rng.weighted([(5, 0), (4, 1), (1, 2)])
+        gs = at["groups"][fam] or at["groups"][0]
+        g = rng.shuffle(rng.pick(gs))
+        cls = g[:rng.range(2, min(4, len(g)))] if not exact else g[:2]
+        st["cases"] += 1
+        st["families"][fam] += 1
+        st["pairs_same_shard_same_tag"] += len(cls) * (len(cls) - 1) // 2
+        kd = rng.pick("cgh")
+        kinds = [kd] if exact or rng.chance(2, 3) else list("cgh")
+
+        def akey(c):
+            v = 0 if exact else rng.pick([0, 0, 0, 0, 4, 3, 1, 2, 5])
+            st["variants"][v] += 1
+            return self.key(c, v)
+        if exact:
+            a, b = cls
+            progs = [[["C", kd] + akey(a), ["C", kd] + akey(b), ["G", kd] + akey(a), ["G", kd] + akey(b), ["D", kd] + akey(a),
+                      ["G", kd] + akey(b), ["H", kd]]]
+            return dict(k=k, progs=progs, sched=[])
+        if not exact and rng.chance(1, 8):
+            cls = cls + [rng.below(NCLASS)]
+        if rng.chance(2, 3):
+            ops = []
+            for _ in range(rng.range(4, 10)):
+                what = rng.weighted([(8, "C"), (4, "G"), (3, "D"), (1, "R"), (1, "V"), (2, "H")])
+                d = rng.pick(kinds)
+                if what in "CGD":
+                    c = rng.pick(cls)
+                    ops.append([what, d] + (akey(c) if c >= self.ALIAS0 else self.key(c, rng.below(NVAR))))
+                elif what == "R":
+                    ops.append(["R", d, [c for c in cls if rng.chance(1, 2)]])
+                else:
+                    ops.append([what, d])
+            return dict(k=k, progs=[ops], sched=[])
+        # races between creators / deleters of DIFFERENT aliased classes of one bucket
+        progs = []
+        for t in range(rng.range(2, 3)):
+            p = []
+            for _ in range(rng.range(1, 2)):
+                what = rng.weighted([(6, "C"), (2, "D"), (1, "G")])
+                p.append([what, kd] + akey(rng.pick([c for c in cls if c >= self.ALIAS0])))
+            progs.append(p)
+        total = sum(1 + sum(self.oplen(o) for o in p) for p in progs)
+        sched = [rng.below(len(progs)) for _ in range(rng.range(0, total + 2))]
+        return dict(k=k, progs=progs, sched=sched)
 
     def pick_classes(self, rng, n):
         t = self.table()
@@ -164,17 +251,22 @@ class C06(Prop):
         r2 = Rng(20601)
         for _ in range(6):
             out.append(self.aba_case(r2, k, exact=True))
+        for _ in range(6):
+            out.append(self.alias_case(r2, k, exact=True))
         return out
 
     def gen(self, rng, n):
         cases = self.enumerated(n) if n >= 300 else []
         k = self.table()["k"]
         for idx in range(max(n - len(cases), 0)):
-            mode = rng.weighted([(5, "hist"), (2, "cc"), (2, "cd"), (2, "cr"), (3, "mix"), (4, "aba")])
+            mode = rng.weighted([(5, "hist"), (2, "cc"), (2, "cd"), (2, "cr"), (3, "mix"), (4, "aba"), (3, "alias")])
             classes = self.pick_classes(rng, rng.range(2, 5))
             kinds = rng.pick(["c", "g", "h", "cg", "cgh", "cgh"])
             if mode == "aba":
                 cases.append(self.aba_case(rng, k))
+                continue
+            if mode == "alias":
+                cases.append(self.alias_case(rng, k))
                 continue
             if mode == "hist":
                 w = [(8, "C"), (3, "G"), (4, "D"), (2, "R"), (1, "X"), (2, "V"), (3, "H")]
@@ -418,6 +510,22 @@ class C06(Prop):
                             "an equal key reached a different storage (not Arc::ptr_eq), more than one storage was constructed for one key, visit did not list "
                             "the key exactly once, or delete through a clone was untruthful", dict(observed=line, stderr=err[-500:], cmd=cmd)))
                 break
+        # bulk history over thousands of storage-aliased keys, judged by a reference map keyed by contents
+        aruns = []
+        for rep in range(2):
+            cmd = "ALIAS %d" % (ctx["seed"] * 2 + rep)
+            rc, outs, err = core.run_impl(ctx["binpath"], [cmd], timeout=600)
+            line = outs[0] if outs else ""
+            aruns.append(line)
+            if rc != 0 or not line.startswith("ALIAS ok=1 "):
+                out.append(("alias", "bulk sequential history over 6000 keys whose names / label keys / label values are slices of one static buffer (3000 prefixes of "
+                            "one string, 2000 labels made of prefixes, 1000 overlapping windows; built as borrowed slices, clones, twin-buffer slices, owned and "
+                            "Arc copies), judged by a reference single map keyed by contents: a get_or_create / get / delete / visit / handles result was not "
+                            "the one of the key's own class (another key's storage was returned or shared, a listing lost or duplicated a class, delete untruthful)",
+                            dict(observed=line, stderr=err[-500:], cmd=cmd)))
+                break
+        ctx["coverage"]["alias_bulk_runs"] = aruns
+        ctx["coverage"]["alias_replayed_cases"] = self._alias_stats
         ctx["coverage"]["keyrace_runs"] = kruns
         ctx["coverage"]["keyrace_dimensions"] = ("per run: 768 directed schedules (2 threads, sites 301-306, 3 const constructors x 256 thread orders, 2 clones each) + up to "
                                                  "%d free-running rounds within %d ms (4 workers: first user, 2 cloners x 24 clones, 1 equal key from owned parts; all kinds)" % (rounds, budget))
